@@ -529,17 +529,24 @@ def main():
     # repeat objects and equal coordinates, and shuffle; every coordinate of every call must be filed under exactly
     # the model's `encode` of itself, under what it gets when encoded alone, and under the tiling's own cell
     # (ref_encode); the same sequence at a shorter length must give prefixes.
+    def grid(base, L):
+        """origin and cell size of the length-L grid, from the base's coordinate range and bit width alone (exact floats)"""
+        cfg = CFG[base]
+        nb = {16: 4, 32: 5, 64: 6}[base] * L
+        nlon, nlat = (nb + 1) // 2, nb // 2
+        return (float(cfg['min_x']), float(cfg['min_y']), (float(cfg['max_x']) - float(cfg['min_x'])) / 2 ** nlon,
+                (float(cfg['max_y']) - float(cfg['min_y'])) / 2 ** nlat, nlon, nlat)
+
     def anchor_cell(base, L):
         """(w, e, s, n) of an in-range cell of length L, placed on the grid of a random coarser length L0 <= L
-        (so that its west/south edges are often also edges of the coarser cells); exact in floats for L <= 12"""
-        z = CFG[base]['charset'][0] * L
-        _, _, ex, ey = GH._decode_niemeyer(z, base)
-        cw, ch = 2 * ex, 2 * ey
-        for _ in range(40):
+        (so that its west/south edges are often also edges of the coarser cells); exact in floats for L <= 12.
+        Pure arithmetic: the generator does not ask the code under check where the cells are."""
+        mx, my, cw, ch, _, _ = grid(base, L)
+        for _ in range(60):
             L0 = rng.randint(1, L)
-            c0 = Coordinate(rng.uniform(-180, 180), rng.uniform(-90, 90))
-            w0, e0, s0, n0 = (float(v) for v in cell_of(GH._decode_niemeyer(GH._coord_to_niemeyer(c0, L0, base), base)))
-            kx, ky = round((e0 - w0) / cw), round((n0 - s0) / ch)
+            _, _, cw0, ch0, nlon0, nlat0 = grid(base, L0)
+            w0, s0 = mx + rng.randrange(2 ** nlon0) * cw0, my + rng.randrange(2 ** nlat0) * ch0
+            kx, ky = round(cw0 / cw), round(ch0 / ch)
             ix = rng.choice([0, kx // 2, kx - 1, rng.randrange(kx)])
             iy = rng.choice([0, ky // 2, ky - 1, rng.randrange(ky)])
             w, s = w0 + ix * cw, s0 + iy * ch
@@ -673,6 +680,7 @@ def main():
     # change the answer in place the way a caller that owns it may (drain it as a work queue, prune it, extend it), ask
     # again with the same arguments, then with other arguments (child, sibling, the same string under another base),
     # change again, ask again.  Every later answer must equal the first-call answer, the model and the tiling oracle.
+    @total('children-history', lambda i: None)
     def children_history(h, base):
         cs = CFG[base]['charset']
         i0, r0 = add_decode(h, base, expect_valid=True, why='history')
@@ -718,11 +726,12 @@ def main():
         if Lh <= 1:
             h = ''.join(rng.choice(cs) for _ in range(Lh))
         else:
-            h = GH._coord_to_niemeyer(Coordinate(rng.uniform(-180, 180), rng.uniform(-90, 90)), Lh, base)
+            h = ref_encode(rng.uniform(-180, 180), rng.uniform(-90, 90), Lh, base)
         children_history(h, base)
 
     # the other answers that are mutable objects: the box of a cell (its properties / corners reassigned by the caller),
     # the dict of hash_coordinates and the set of hash_shape(GeoPoint) (both on the SAME hasher and the same arguments)
+    @total('box/point/coordinates-history', lambda i: None)
     def other_history(h, base):
         r0 = impl_decode(h, base)
         if r0[0] != 'Ok' or not in_range(r0[1]) or cell_of(r0[1])[1] == 180:
@@ -767,7 +776,7 @@ def main():
     for nh in range(n_hist // 3):
         base = [16, 32, 64][nh % 3]
         Lh = rng.randint(1, 8)
-        other_history(GH._coord_to_niemeyer(Coordinate(rng.uniform(-179, 179), rng.uniform(-89, 89)), Lh, base), base)
+        other_history(ref_encode(rng.uniform(-179, 179), rng.uniform(-89, 89), Lh, base), base)
 
     # ---------------------------------------------------------------- 3. rejection / error behaviour (fixed)
     outsiders = {16: 'gGzA -=_é', 32: 'ailoAZ-= é', 64: '-+/ .~é中'}
